@@ -361,6 +361,12 @@ class Interp:
         if isinstance(a, Ctx) or isinstance(b, Ctx):
             if op in ('eq', 'ne'):
                 raise OOD('identity of contexts')
+            if op in ('lt', 'le', 'gt', 'ge'):
+                # the null overloads of common.py (`null < x`, `x < null`) take ANY object on the other side - a context too
+                if isinstance(a, Ctx) and b is None:
+                    return op in ('gt', 'ge')
+                if isinstance(b, Ctx) and a is None:
+                    return op in ('lt', 'le')
             raise NoMatchingFunctionException(op)
         a, b = plain(a), plain(b)
 
